@@ -1908,10 +1908,16 @@ class QueryBuilder(Selectable, Term):  # type:ignore[misc]
 
     def _set_sql(self, ctx: SqlContext) -> str:
         field_ctx = ctx.copy(with_namespace=False)
+
+        def target_ctx(field: Field) -> SqlContext:
+            # a column of a JOINED table (multi-table UPDATE) keeps its source's name: bare, it would name the target's
+            joined = self._joins and field.table is not None and field.table != self._update_table
+            return ctx if joined else field_ctx
+
         return " SET {set}".format(
             set=",".join(
                 "{field}={value}".format(
-                    field=field.get_sql(field_ctx),
+                    field=field.get_sql(target_ctx(field)),
                     value=value.get_sql(ctx),
                 )
                 for field, value in self._updates
